@@ -107,6 +107,20 @@ func (m *MonC04) OnReq(w *World, r *Req) {
 	if p == nil || !r.IsWrite() || r.DryRun || !r.Succeeded() {
 		return
 	}
+	if (isObjectSetKind(p.Ctrl) || isPhaseKind(p.Ctrl)) && r.GVK.Group != PKOGroup && (r.Verb == "create" || r.Verb == "patch" || r.Verb == "update") {
+		// "the finalizer stays until ...": it has to be there before the owner takes control of anything,
+		// or a deletion in between removes the owner without any teardown
+		if o := ownerOfPass(p); o != nil && !isTeardownOwner(o) {
+			cur, ok := w.Mgmt.Objs[store.KeyOf(o)]
+			if ok && store.Str(cur, "metadata", "uid") == store.Str(o, "metadata", "uid") && !store.HasFinalizer(cur, finCached) && !store.Deleting(cur) &&
+				r.After != nil && IsControlledBy(r.After, o, strategyOf(p)) {
+				m.touch()
+				w.Report(Violation{Property: "C04", Rule: "write-without-finalizer", Sig: shortSite(r.Site), Seq: r.Seq,
+					Msg: fmt.Sprintf("pass %d of %s %s took control of %s while the owner does not carry the %s finalizer yet", p.ID, p.Ctrl, p.Key, r.Key(), finCached)})
+				return
+			}
+		}
+	}
 	if !isObjectSetKind(p.Ctrl) {
 		return
 	}
